@@ -400,6 +400,8 @@ def main(argv=None):
                     continue
                 r = json.load(open(p._spec['out']))
                 for sgn, vv in r['violations'].items():
+                    vv['process_level'] = True      # observed under real threads: not replayable under the simulator
+                    vv.setdefault('detail', {})['OMP_NUM_THREADS'] = k
                     viol.setdefault(sgn, vv)
                     vcount[sgn] = vcount.get(sgn, 0) + r['violation_counts'].get(sgn, 1)
                 if base_d is None:
